@@ -36,6 +36,15 @@ func (acct Account) IsContract() bool {
 type Storage map[common.Hash]common.Hash
 
 // SortedKeys sort the keys for deterministic iteration
+// Copy returns a copy of the storage map.
+func (s Storage) Copy() Storage {
+	c := make(Storage, len(s))
+	for k, v := range s {
+		c[k] = v
+	}
+	return c
+}
+
 func (s Storage) SortedKeys() []common.Hash {
 	keys := make([]common.Hash, 0, len(s))
 	for k := range s {
